@@ -251,22 +251,59 @@ func extract(repo, leanDir string) {
 		} else {
 			ok = ok && gofacts.Has(ctor, "w.rehash = remap.NewReMap(opts...)")
 		}
-		// every other method of the sharded type reaches its shard only through calculateKey / calKeyFn
+		// every method of the sharded type: (1) no routing call of its own — `rehash` is touched only by the constructor;
+		// (2) keyed methods are pure delegations `shard(key).SameMethod(args…)`; (3) the multi-key paths of tgroup have the
+		// exact shape the model was written against (indices only from calKeyFn via calculateSortedMultiKeys).
+		multi := map[string]string{
+			"Locks":    "{ var ms = w.calculateSortedMultiKeys(keys) var ws = make([]*wrapLocker, 0, len(keys)) for _, ks := range ms { ws = append(ws, w.ls[ks.index].getWriteLocks(ks.ks)...) } for _, wr := range ws { wr.rwLocker.Lock() } }",
+			"RLocks":   "{ var ms = w.calculateSortedMultiKeys(keys) var ws = make([]*wrapLocker, 0, len(keys)) for _, ks := range ms { ws = append(ws, w.ls[ks.index].getReadLocks(ks.ks)...) } for _, wr := range ws { wr.rwLocker.RLock() } }",
+			"Unlocks":  "{ var m = w.calculateSortedMultiKeys(keys) for _, ks := range m { w.ls[ks.index].Unlocks(ks.ks) } }",
+			"RUnlocks": "{ var m = w.calculateSortedMultiKeys(keys) for _, ks := range m { w.ls[ks.index].RUnlocks(ks.ks) } }",
+			"calculateSortedMultiKeys": "{ var m = make(map[int][]T) for _, key := range keys { var i = w.calKeyFn(key) m[i] = append(m[i], key) } var ms = make([]multiKeyT[T], 0, len(m)) for i, ks := range m { ms = append(ms, multiKeyT[T]{index: i, ks: ks}) } slices.SortFunc[multiKeyT[T]](ms, func(a, b multiKeyT[T]) bool { return a.index < b.index }) return ms }",
+		}
 		for _, d := range cf.AST.Decls {
 			fd, isF := d.(*ast.FuncDecl)
-			if !isF || fd.Recv == nil || fd.Body == nil || fd.Name.Name == "calculateKey" {
-				continue
-			}
-			rt := cf.Src(fd.Recv.List[0].Type)
-			if !strings.Contains(rt, c.recv) {
+			if !isF || fd.Body == nil {
 				continue
 			}
 			body := cf.Src(fd.Body)
-			if strings.Contains(body, "."+c.field+"[") && !strings.Contains(body, "calKeyFn(") && !strings.Contains(body, "calculateSortedMultiKeys(") {
-				ok = false // a shard reached with an index that does not come from the routing function
+			if fd.Name.Name == c.ctor {
+				// the only uses of the ReMap: construction, Numbs(), and handing ONE index function to calKeyFn
+				rest := body
+				for _, allowed := range []string{"w.rehash = remap.NewReMap(remap.WithPrime(prime))", "w.rehash = remap.NewReMap(opts...)", "w.rehash = remap.NewReMap()",
+					"w.rehash.Numbs()", "w.calKeyFn = w.rehash.XHashIndex", "w.calKeyFn = w.rehash.SimpleIndex"} {
+					rest = strings.ReplaceAll(rest, allowed, "")
+				}
+				if strings.Contains(rest, "rehash") || strings.Contains(rest, "calKeyFn") || strings.Contains(rest, "remap.") {
+					ok = note(false, "container:"+c.file+":"+fd.Name.Name+":routing outside the configured index function")
+				}
+				continue
+			}
+			if strings.Contains(body, "rehash") || strings.Contains(body, "remap.") || strings.Contains(body, "SimpleIndex") || strings.Contains(body, "XHashIndex") || strings.Contains(body, "SearchIndex") {
+				ok = note(false, "container:"+c.file+":"+fd.Name.Name+":routing outside the configured index function")
+			}
+			if fd.Recv == nil || !strings.Contains(cf.Src(fd.Recv.List[0].Type), c.recv) || fd.Name.Name == "calculateKey" {
+				continue
+			}
+			if want, isMulti := multi[fd.Name.Name]; isMulti && c.recv == "TKeyLockerGrp" {
+				if body != want {
+					ok = note(false, "container:"+c.file+":"+fd.Name.Name+":shape")
+				}
+				continue
+			}
+			// pure delegation to the same method of the key's shard, arguments passed through in order
+			var args []string
+			for _, fl := range fd.Type.Params.List {
+				for _, nm := range fl.Names {
+					args = append(args, nm.Name)
+				}
+			}
+			call := rv + ".calculateKey(key)." + fd.Name.Name + "(" + strings.Join(args, ", ") + ")"
+			if body != "{ "+call+" }" && body != "{ return "+call+" }" {
+				ok = note(false, "container:"+c.file+":"+fd.Name.Name+":not a delegation to the shard's "+fd.Name.Name)
 			}
 		}
-		containers = containers && note(ok, "container:"+c.file)
+		containers = note(ok, "container:"+c.file) && containers
 	}
 
 	// ---- kernels
